@@ -143,12 +143,20 @@ BigVector(s, r, j) ==
     OptStep(UnprotectStep("C01", "R", ~r, Ref(3, "wire"), IF j % 2 = 0 THEN "nil" ELSE "pre", AcceptExp(m))) >>)
 
 \* ---- many messages protected on ONE long-lived object in one role (sizes vary so that pad lengths vary), each accepted by the peer
-SeqMsg(i) == Msg((i % 5) + 1, << [k |-> "NONCE", data |-> D((i * 7) % 23, i)], Rep("N") >>)
+\* (what the messages carry is of no concern to an SA key object: among them requests that delete the IKE SA itself, Delete payloads
+\*  for Child SAs, and -- the five headers come round again and again -- many messages with the same message ID)
+SeqMsg(i) == Msg((i % 5) + 1, IF i % 5 = 0 THEN << [k |-> "D", proto |-> 1, spisz |-> 0, num |-> 0, spis |-> << >>] >>
+                              ELSE IF i % 7 = 3 THEN << Rep("D"), Rep("V") >>
+                              ELSE << [k |-> "NONCE", data |-> D((i * 7) % 23, i)], Rep("N") >>)
+\* every fourth message also arrives from an independent implementation holding the same keys, with a pad length of its own choice
+\* (32 inner octets: 15, 31, ... 255 are legal)
+SeqRefMsg(i) == Msg((i % 5) + 1, << [k |-> "NONCE", data |-> D(13, i)], Rep("N") >>)
+SeqRefPad(j) == << 255, 15, 239, 31 >>[((j \div 4) % 4) + 1]
 \* every sixth message is preceded by a protect during which the random source fails (at its first, second or third read): that
 \* attempt gives an error -- or, if the failure is not reached, a datagram -- and the object goes on as if nothing had happened
 SeqFault(j, once) == [mode |-> IF once THEN "failonce" ELSE "fail", seed |-> j, failat |-> (j \div 6) % 3]
-RECURSIVE SeqSteps(_, _, _, _, _)
-SeqSteps(r, j, n, at, props) ==        \* at: number of steps emitted so far (the two SaNew included)
+RECURSIVE SeqSteps(_, _, _, _, _, _)
+SeqSteps(SeqSuite, r, j, n, at, props) ==        \* at: number of steps emitted so far (the two SaNew included)
   IF j > n THEN << >>
   ELSE LET fstep(pi, once) ==
              Step("protect", props[pi], FALSE, [sa |-> "S", role |-> r, msg |-> SeqMsg(j + 100), rand |-> SeqFault(j, once)],
@@ -157,13 +165,18 @@ SeqSteps(r, j, n, at, props) ==        \* at: number of steps emitted so far (th
            fault == IF j % 6 = 0 THEN << fstep(1, TRUE), fstep(2, TRUE), fstep(1, FALSE), fstep(2, FALSE) >> ELSE << >>
            k == at + Len(fault)
            \* every fifth message is also offered cut down to its 28 header octets (it still announces an Encrypted payload): refused
-           cut == IF j % 5 = 0 THEN << UnprotectStep(props[2], "R", ~r, Slice(Ref(k + 1, "wire"), 0, 28), IF j % 2 = 0 THEN "nil" ELSE "pre", RejectExp) >> ELSE << >> IN
+           cut == IF j % 5 = 0 THEN << UnprotectStep(props[2], "R", ~r, Slice(Ref(k + 1, "wire"), 0, 28), IF j % 2 = 0 THEN "nil" ELSE "pre", RejectExp) >> ELSE << >>
+           ref == IF j % 4 = 0
+                    THEN << UnprotectStep(props[1 + ((j \div 4) % 2)], "R", ~r,
+                                          RefProtect(SeqRefMsg(j), SeqSuite, KeysOf(SeqSuite, 1), r, PadFill(j + 1, 16), SeqRefPad(j), PadFill(j, SeqRefPad(j))),
+                                          IF j % 8 = 0 THEN "nil" ELSE "pre", AcceptExp(SeqRefMsg(j))) >>
+                    ELSE << >> IN
        fault \o << ProtectStep(props[1], "S", r, SeqMsg(j), "system"),
                    UnprotectStep(props[2], "R", ~r, Ref(k + 1, "wire"), "nil", AcceptExp(SeqMsg(j))) >>
-             \o cut \o SeqSteps(r, j + 1, n, k + 2 + Len(cut), props)
+             \o cut \o ref \o SeqSteps(SeqSuite, r, j + 1, n, k + 2 + Len(cut) + Len(ref), props)
 SeqVector(s, r, n) ==
   LET props == IF OnlySeq # "" THEN << OnlySeq, OnlySeq >> ELSE << "C06", "C01" >> IN
-  Vector("sk_sequence", << SaNew("S", s, KeysOf(s, 1)), SaNew("R", s, KeysOf(s, 1)) >> \o SeqSteps(r, 1, n, 2, props))
+  Vector("sk_sequence", << SaNew("S", s, KeysOf(s, 1)), SaNew("R", s, KeysOf(s, 1)) >> \o SeqSteps(s, r, 1, n, 2, props))
 
 NVariants == 9 + 16 + NInner + NBig + 1
 Init == stage = 0 /\ su = 0 /\ role = TRUE /\ mi = 0 /\ variant = 0
